@@ -312,7 +312,10 @@ type Frame struct {
 func GC() {}
 
 func Goexit() {
-	js.Global.Get("$curGoroutine").Set("exit", true)
+	g := js.Global.Get("$curGoroutine")
+	g.Set("exit", true)
+	// The frames whose deferred calls are still pending are the ones Goexit unwinds.
+	g.Set("exitDepth", g.Get("deferStack").Length())
 	js.Global.Call("$throw", nil)
 }
 
